@@ -1,5 +1,5 @@
 """Contracts for ZConfig/info.py (properties C01, C02, C10, C11, C12, C13)."""
-from pyvc.api import (At, Clause, Loop, Raise, assumed, contract, inline, model, prim, shared_dict,
+from pyvc.api import (At, Clause, Loop, Raise, MODELS, REGISTRY, assumed, contract, inline, model, prim, shared_dict,
                       shared_list, spec_module)
 from pyvc.types import TInt, TNone, TUnion, define_type
 import spec.schema as SS
@@ -113,7 +113,8 @@ contract('info.SectionType.getsectioninfo', params={'type_': 'str', 'name': 'Opt
 
 # ---- defaults ----------------------------------------------------------------------------------------------------
 import contracts.matcher_types      # Slot / Item / MItem
-model('info.BaseKeyInfo', fields={'_finished': 'bool', '_rawdefaults': 'Slot', '_default': 'Slot'})
+model('info.BaseKeyInfo', fields={'_finished': 'bool', '_rawdefaults': 'Slot', '_default': 'Slot'},
+      late_fields=('_default',))
 contract('info.BaseInfo.getdefault', returns='Slot', pure=True,
          ensures=[Clause('result == default_of(self)', carries='C02,C13', label='copy-of-the-declared-defaults')],
          notes='interface contract of the three getdefault() implementations; the result is a COPY '
@@ -126,3 +127,363 @@ contract('info.MultiKeyInfo.getdefault', returns='Slot',
          fresh_result=True)
 contract('info.SectionInfo.getdefault', returns='Slot',
          ensures=[Clause('result == default_of(self)', carries='C02', label='sections-have-no-defaults')])
+
+# ================================================================================================================
+# Construction of schema objects (C10: rules enforced when the schema is built; C11: composition)
+# ================================================================================================================
+SCHEMA_ERR = "isclass(exc, 'ZConfig.SchemaError')"
+contract('info.BaseInfo.__init__',
+         params={'name': 'Opt[str]', 'datatype': 'Opt[Fun[dt]]', 'minOccurs': 'int', 'maxOccurs': 'MaxOcc',
+                 'handler': 'Opt[str]', 'attribute': 'Opt[str]'},
+         ensures=[Clause('self.name == name and self.datatype == datatype and self.minOccurs == minOccurs and '
+                         'self.maxOccurs == maxOccurs and self.handler == handler and self.attribute == attribute',
+                         carries='C10', label='stores-the-declaration'),
+                  Clause('maxOccurs >= 1 and not (minOccurs > maxOccurs)', carries='C10', label='occurrence-bounds-consistent')],
+         raises=[Raise('ZConfig.SchemaError', when='maxOccurs < 1 or minOccurs > maxOccurs',
+                       then=[Clause(SCHEMA_ERR)], carries='C10', label='bad-occurrence-bounds')])
+
+KINFO = {'name': 'Opt[str]', 'datatype': 'Opt[Fun[dt]]', 'minOccurs': 'int', 'maxOccurs': 'MaxOcc',
+         'handler': 'Opt[str]', 'attribute': 'Opt[str]'}
+STORES = ('self.name == name and self.datatype == datatype and self.minOccurs == minOccurs and '
+          'self.handler == handler and self.attribute == attribute')
+contract('info.BaseKeyInfo.__init__', params=dict(KINFO),
+         ensures=[Clause(STORES + ' and self.maxOccurs == maxOccurs and not self._finished', carries='C10', label='stores-the-declaration'),
+                  Clause('maxOccurs >= 1 and not (minOccurs > maxOccurs)', label='occurrence-bounds-consistent')],
+         raises=[Raise('ZConfig.SchemaError', when='maxOccurs < 1 or minOccurs > maxOccurs', carries='C10',
+                       label='bad-occurrence-bounds')])
+contract('info.BaseKeyInfo.finish', modifies=['self._finished'],
+         ensures=[Clause('self._finished and not old(self._finished)', carries='C10', label='finished-once')],
+         raises=[Raise('ZConfig.SchemaError', when='self._finished', carries='C10', label='finished-twice')])
+
+# ---- defaults of keys ------------------------------------------------------------------------------------------------
+def _shape(kind):
+    return {'kmap': "is_alt(self._default, 'kmap')", 'lst': "is_alt(self._default, 'lst')",
+            'single': "(is_alt(self._default, 'none') or is_alt(self._default, 'vi'))"}[kind]
+
+
+model('info.KeyInfo', fields={},
+      invariant=[Clause("(self.name == '+') == is_alt(self._default, 'kmap')", label='wildcard-key-has-a-default-map'),
+                 Clause("implies(self.name != '+', is_alt(self._default, 'none') or is_alt(self._default, 'vi'))",
+                        label='single-key-has-at-most-one-default'),
+                 Clause("not (self.maxOccurs > 1)", label='single-valued'),
+                 Clause("implies(self.name == '+', forall('str', lambda x: implies(x in alt(self._default, 'kmap'), "
+                        "is_alt(alt(self._default, 'kmap')[x], 'vi'))))", label='one-default-per-key')])
+model('info.MultiKeyInfo', fields={},
+      invariant=[Clause("(self.name == '+') == is_alt(self._default, 'kmap')", label='wildcard-multikey-has-a-default-map'),
+                 Clause("implies(self.name != '+', is_alt(self._default, 'lst'))", label='multikey-has-a-default-list'),
+                 Clause("implies(self.name == '+', forall('str', lambda x: implies(x in alt(self._default, 'kmap'), "
+                        "is_alt(alt(self._default, 'kmap')[x], 'lst'))))", label='list-of-defaults-per-key')])
+K5 = {k: v for k, v in KINFO.items() if k != 'maxOccurs'}
+contract('info.KeyInfo.__init__', params=dict(K5),
+         ensures=[Clause(STORES + ' and self.maxOccurs == 1 and not self._finished', carries='C10', label='stores-the-declaration'),
+                  Clause("implies(name == '+', is_alt(self._default, 'kmap') and len(alt(self._default, 'kmap')) == 0)",
+                         carries='C10', label='wildcard-key-starts-with-an-empty-default-map'),
+                  Clause("implies(name != '+', is_alt(self._default, 'none'))", carries='C10', label='no-default-yet'),
+                  Clause('is_alt(self._rawdefaults, \'none\')')],
+         raises=[Raise('ZConfig.SchemaError', when='minOccurs > 1', carries='C10', label='bad-occurrence-bounds')])
+contract('info.MultiKeyInfo.__init__', params=dict(KINFO),
+         ensures=[Clause(STORES + ' and self.maxOccurs == maxOccurs and not self._finished', carries='C10', label='stores-the-declaration'),
+                  Clause("implies(name == '+', is_alt(self._default, 'kmap') and len(alt(self._default, 'kmap')) == 0)",
+                         carries='C10', label='wildcard-multikey-starts-with-an-empty-default-map'),
+                  Clause("implies(name != '+', is_alt(self._default, 'lst') and len(alt(self._default, 'lst')) == 0)",
+                         carries='C10', label='no-defaults-yet')],
+         raises=[Raise('ZConfig.SchemaError', when='maxOccurs < 1 or minOccurs > maxOccurs', carries='C10',
+                       label='bad-occurrence-bounds')])
+VI = 'Ref[info.ValueInfo]'
+contract('info.KeyInfo.add_valueinfo', params={'vi': VI, 'key': 'Opt[str]'},
+         requires=[Clause("(self.name == '+') == (key is not None)", label='keyed-iff-wildcard')],
+         modifies=['self._default'],
+         ensures=[Clause("implies(self.name == '+', val(key) not in alt(old(self._default), 'kmap') and "
+                         "alt(self._default, 'kmap') == updated(alt(old(self._default), 'kmap'), val(key), vi))",
+                         carries='C10', label='default-filed-under-its-key'),
+                  Clause("implies(self.name != '+', is_alt(old(self._default), 'none') and is_alt(self._default, 'vi') and "
+                         "alt(self._default, 'vi') == vi)", carries='C10', label='the-one-default')],
+         raises=[Raise('ZConfig.SchemaError',
+                       when="(self.name == '+' and val(key) in alt(self._default, 'kmap')) or "
+                            "(self.name != '+' and not is_alt(self._default, 'none'))",
+                       then=[Clause('self._default == old(self._default)')], carries='C10',
+                       label='duplicate-default-key-or-second-default')])
+contract('info.MultiKeyInfo.add_valueinfo', params={'vi': VI, 'key': 'Opt[str]'},
+         requires=[Clause("(self.name == '+') == (key is not None)", label='keyed-iff-wildcard')],
+         modifies=['self._default'],
+         ensures=[Clause("implies(self.name == '+', is_alt(self._default, 'kmap') and "
+                         "alt(self._default, 'kmap') == updated(alt(old(self._default), 'kmap'), val(key), "
+                         "alt(self._default, 'kmap')[val(key)]) and is_alt(alt(self._default, 'kmap')[val(key)], 'lst') and "
+                         "alt(alt(self._default, 'kmap')[val(key)], 'lst') == "
+                         "(alt(alt(old(self._default), 'kmap')[val(key)], 'lst') if val(key) in alt(old(self._default), 'kmap') else []) + [vi])",
+                         carries='C10', label='default-appended-under-its-key-in-document-order'),
+                  Clause("implies(self.name != '+', is_alt(self._default, 'lst') and "
+                         "alt(self._default, 'lst') == alt(old(self._default), 'lst') + [vi])", carries='C10',
+                         label='default-appended-in-document-order')])
+contract('info.BaseKeyInfo.adddefault',
+         params={'value': 'str', 'position': POSN, 'key': ('Opt[str]', 'None')},
+         modifies=['self._default'],
+         ensures=[Clause("not self._finished and (self.name == '+') == (key is not None)", carries='C10',
+                         label='defaults-keyed-exactly-when-the-key-is-a-wildcard')],
+         raises=[Raise('ZConfig.SchemaError', carries='C10',
+                       label='finished-or-keying-mismatch-or-duplicate')],
+         notes='dispatches to add_valueinfo of the subclass (interface contract below)')
+contract('info.BaseKeyInfo.add_valueinfo', params={'vi': VI, 'key': 'Opt[str]'},
+         requires=[Clause("(self.name == '+') == (key is not None)", label='keyed-iff-wildcard')],
+         modifies=['self._default'], raises=[Raise('ZConfig.SchemaError', carries='C10', label='duplicate')],
+         assumed=True, notes='abstract method: interface of KeyInfo.add_valueinfo / MultiKeyInfo.add_valueinfo (both proved)')
+
+RAWD = "(old(self._default) if is_alt(old(self._rawdefaults), 'none') else old(self._rawdefaults))"
+contract('info.BaseKeyInfo.prepare_raw_defaults',
+         requires=[Clause("self.name == '+'", label='wildcard-only')],
+         modifies=['self._rawdefaults', 'self._default'],
+         ensures=[Clause('self._rawdefaults == %s' % RAWD, carries='C11',
+                         label='defaults-AS-WRITTEN-kept-once-never-replaced-by-normalised-ones'),
+                  Clause("is_alt(self._default, 'kmap') and alt(self._default, 'kmap') == {}", carries='C11',
+                         label='normalised-defaults-start-empty')])
+MODELS['info.KeyInfo'].invariant.append(
+    Clause("implies(not is_alt(self._rawdefaults, 'none'), is_alt(self._rawdefaults, 'kmap') and "
+           "forall('str', lambda x: implies(x in alt(self._rawdefaults, 'kmap'), "
+           "is_alt(alt(self._rawdefaults, 'kmap')[x], 'vi'))))", label='raw-defaults-one-per-key'))
+RN = "renorm_defaults(alt(%s, 'kmap'), keytype, 0, {})" % RAWD
+contract('info.KeyInfo.computedefault', params={'keytype': 'Fun[kt]'},
+         requires=[Clause("self.name == '+'", label='wildcard-only')],
+         modifies=['self._rawdefaults', 'self._default'],
+         inline_calls=['info.ValueInfo.convert'],
+         ensures=[Clause('self._rawdefaults == %s' % RAWD, carries='C11', label='defaults-as-written-kept'),
+                  Clause("%s[0] == 0 and is_alt(self._default, 'kmap') and alt(self._default, 'kmap') == %s[1]" % (RN, RN),
+                         carries='C10,C11', label='defaults-re-normalised-under-the-given-key-type')],
+         raises=[Raise('ZConfig.SchemaError', when='%s[0] == 1' % RN, carries='C10,C11',
+                       label='default-keys-collide-after-normalisation'),
+                 Raise('ZConfig.DataConversionError', when='%s[0] == 2' % RN, carries='C10',
+                       label='default-key-refused-by-the-key-type')],
+         hints=["renorm_defaults(alt(self._rawdefaults, 'kmap'), keytype, _i0, alt(self._default, 'kmap'))"],
+         loops=[Loop(invariant=[Clause("is_alt(self._default, 'kmap') and is_alt(self._rawdefaults, 'kmap')"),
+                                Clause("renorm_defaults(alt(self._rawdefaults, 'kmap'), keytype, _i0, alt(self._default, 'kmap')) == "
+                                       "renorm_defaults(alt(self._rawdefaults, 'kmap'), keytype, 0, {})",
+                                       label='remaining-fold-equals-fold'),
+                                Clause("self._rawdefaults == %s" % RAWD),
+                                Clause("forall('str', lambda x: implies(x in alt(self._default, 'kmap'), "
+                                       "is_alt(alt(self._default, 'kmap')[x], 'vi')))", label='one-default-per-key')],
+                     hints=["renorm_defaults(alt(self._rawdefaults, 'kmap'), keytype, _i0, alt(self._default, 'kmap'))"],
+                     locals={'k': 'str', 'vi': 'MItem', 'key': 'str'}, modifies=['self._default'])])
+
+MODELS['info.MultiKeyInfo'].invariant.append(
+    Clause("implies(not is_alt(self._rawdefaults, 'none'), is_alt(self._rawdefaults, 'kmap') and "
+           "forall('str', lambda x: implies(x in alt(self._rawdefaults, 'kmap'), "
+           "is_alt(alt(self._rawdefaults, 'kmap')[x], 'lst') and len(alt(alt(self._rawdefaults, 'kmap')[x], 'lst')) >= 1 and "
+           "forall(lambda j: implies(0 <= j and j < len(alt(alt(self._rawdefaults, 'kmap')[x], 'lst')), "
+           "is_alt(alt(alt(self._rawdefaults, 'kmap')[x], 'lst')[j], 'vi'))))))", label='raw-defaults-non-empty-lists'))
+MODELS['info.MultiKeyInfo'].invariant.append(
+    Clause("implies(self.name == '+', forall('str', lambda x: implies(x in alt(self._default, 'kmap'), "
+           "len(alt(alt(self._default, 'kmap')[x], 'lst')) >= 1 and "
+           "forall(lambda j: implies(0 <= j and j < len(alt(alt(self._default, 'kmap')[x], 'lst')), "
+           "is_alt(alt(alt(self._default, 'kmap')[x], 'lst')[j], 'vi'))))))", label='default-lists-non-empty'))
+RNM = "renorm_multi_defaults(alt(%s, 'kmap'), keytype, 0, {})" % RAWD
+contract('info.MultiKeyInfo.computedefault', params={'keytype': 'Fun[kt]'},
+         requires=[Clause("self.name == '+'", label='wildcard-only')],
+         modifies=['self._rawdefaults', 'self._default'],
+         inline_calls=['info.ValueInfo.convert'],
+         ensures=[Clause('self._rawdefaults == %s' % RAWD, carries='C11', label='defaults-as-written-kept'),
+                  Clause("%s[0] == 0 and is_alt(self._default, 'kmap') and alt(self._default, 'kmap') == %s[1]" % (RNM, RNM),
+                         carries='C10,C11', label='defaults-re-normalised-under-the-given-key-type')],
+         raises=[Raise('ZConfig.DataConversionError', when='%s[0] == 2' % RNM, carries='C10',
+                       label='default-key-refused-by-the-key-type')],
+         hints=["renorm_multi_defaults(alt(self._rawdefaults, 'kmap'), keytype, _i0, alt(self._default, 'kmap'))"],
+         loops=[Loop(invariant=[Clause("is_alt(self._default, 'kmap') and is_alt(self._rawdefaults, 'kmap')"),
+                                Clause("renorm_multi_defaults(alt(self._rawdefaults, 'kmap'), keytype, _i0, alt(self._default, 'kmap')) == "
+                                       "renorm_multi_defaults(alt(self._rawdefaults, 'kmap'), keytype, 0, {})",
+                                       label='remaining-fold-equals-fold'),
+                                Clause("self._rawdefaults == %s" % RAWD)] + list(MODELS['info.MultiKeyInfo'].invariant),
+                     hints=["renorm_multi_defaults(alt(self._rawdefaults, 'kmap'), keytype, _i0, alt(self._default, 'kmap'))"],
+                     locals={'k': 'str', 'vlist': 'MItem', 'key': 'str'}, modifies=['self._default']),
+                Loop(invariant=[Clause("is_alt(self._default, 'kmap') and is_alt(self._rawdefaults, 'kmap')"),
+                                Clause("self._rawdefaults == %s" % RAWD),
+                                Clause("implies(_i1 == 0, alt(self._default, 'kmap') == entry(alt(self._default, 'kmap')))"),
+                                Clause("implies(_i1 > 0, key in alt(self._default, 'kmap') and "
+                                       "alt(self._default, 'kmap') == updated(entry(alt(self._default, 'kmap')), key, alt(self._default, 'kmap')[key]) and "
+                                       "is_alt(alt(self._default, 'kmap')[key], 'lst') and "
+                                       "alt(alt(self._default, 'kmap')[key], 'lst') == "
+                                       "(alt(entry(alt(self._default, 'kmap'))[key], 'lst') if key in entry(alt(self._default, 'kmap')) else []) + alt(vlist, 'lst')[:_i1])",
+                                       label='values-of-this-key-appended-so-far')]
+                     + list(MODELS['info.MultiKeyInfo'].invariant),
+                     hints=["slice_step(alt(vlist, 'lst'), _i1)"],
+                     locals={'vi': 'VP'}, modifies=['self._default'])])
+
+# ---- section slots, abstract types ------------------------------------------------------------------------------------
+contract('info.SectionInfo.__init__',
+         params={'name': 'Opt[str]', 'sectiontype': 'Ref[TypeLike]', 'minOccurs': 'int', 'maxOccurs': 'MaxOcc',
+                 'handler': 'Opt[str]', 'attribute': 'Opt[str]'},
+         ensures=[Clause('self.name == name and self.sectiontype == sectiontype and self.minOccurs == minOccurs and '
+                         'self.maxOccurs == maxOccurs and self.handler == handler and self.attribute == attribute',
+                         carries='C10', label='stores-the-declaration'),
+                  Clause("implies(maxOccurs > 1, (name == '*' or name == '+') and attribute is not None and attribute != '')",
+                         carries='C10', label='multisections-are-named-star-or-plus-and-carry-an-attribute'),
+                  Clause('maxOccurs >= 1 and not (minOccurs > maxOccurs)', carries='C10', label='occurrence-bounds-consistent')],
+         raises=[Raise('ZConfig.SchemaError',
+                       when="(maxOccurs > 1 and (not (name == '*' or name == '+') or attribute is None or attribute == '')) "
+                            "or maxOccurs < 1 or minOccurs > maxOccurs",
+                       carries='C10', label='multisection-with-fixed-name-or-without-attribute-or-bad-bounds')])
+MODELS['info.AbstractType'].fields['name'] = 'Opt[str]'
+contract('info.AbstractType.__init__', params={'name': 'str'},
+         ensures=[Clause('self.name == name and len(self._subtypes) == 0 and self.description is None', carries='C12',
+                         label='no-implementers-yet')])
+contract('info.AbstractType.addsubtype', params={'type_': 'Ref[info.SectionType]'},
+         requires=[Clause('type_.name is not None', label='concrete-type-has-a-name')],
+         modifies=['self._subtypes'],
+         ensures=[Clause('self._subtypes == updated(old(self._subtypes), val(type_.name), type_)', carries='C12',
+                         label='implementer-registered-under-its-name-nothing-else-changes')])
+
+# ---- section types: adding children (C10: unique key names and attribute names per container) -------------------------
+MODELS['info.SectionType'].invariant += [
+    Clause('forall(lambda i: implies(0 <= i and i < len(self._children) and self._children[i][0] is not None and '
+           "val(self._children[i][0]) != '', val(self._children[i][0]) in self._keymap))", label='RI-key-map-covers-the-children'),
+    Clause('forall(lambda i: implies(0 <= i and i < len(self._children), '
+           "val(self._children[i][1].attribute) != '' and val(self._children[i][1].attribute) in self._attrmap))",
+           label='RI-attribute-map-covers-the-children')]
+contract('info.SectionType.__init__',
+         params={'name': 'Opt[str]', 'keytype': 'Fun[kt]', 'valuetype': 'Opt[Fun[dt]]', 'datatype': 'Opt[Fun[sdt]]',
+                 'registry': 'Ref[Registry]', 'types': 'Ref[dict:types]'},
+         requires=[Clause('datatype is not None', label='section-types-have-a-datatype')],
+         ensures=[Clause('self.name == name and self.keytype == keytype and self.valuetype == valuetype and '
+                         'self.datatype == datatype and self.registry == registry and self._types == types',
+                         carries='C10', label='stores-the-declaration'),
+                  Clause('len(self._children) == 0 and len(self._attrmap) == 0 and len(self._keymap) == 0 and '
+                         'self.handler is None', carries='C10', label='no-children-yet')])
+NEWKEY = "(key is not None and key != '')"
+ATTR = 'val(info.attribute)'
+contract('info.SectionType._add_child', params={'key': 'Opt[str]', 'info': 'Ref[info.BaseInfo]'},
+         requires=[Clause("child_wf(key, info) and %s != ''" % ATTR, label='child-is-well-formed-and-has-an-attribute-name')],
+         modifies=['self._children', 'self._attrmap', 'self._keymap'],
+         ensures=[Clause('self._children == old(self._children) + [(key, info)]', carries='C10,C11',
+                         label='appended-in-document-order'),
+                  Clause('len(self._children) == len(old(self._children)) + 1 and '
+                         'self._children[len(old(self._children))] == (key, info)', label='new-child-is-last'),
+                  Clause('forall(lambda i: implies(0 <= i and i < len(old(self._children)), '
+                         'self._children[i] == old(self._children)[i]))', label='earlier-children-keep-their-places'),
+                  Clause('%s not in old(self._attrmap) and self._attrmap == updated(old(self._attrmap), %s, info)' % (ATTR, ATTR),
+                         carries='C10', label='attribute-name-was-unused'),
+                  Clause('implies(%s, val(key) not in old(self._keymap) and self._keymap == updated(old(self._keymap), val(key), info))' % NEWKEY,
+                         carries='C10', label='key-name-was-unused'),
+                  Clause('implies(not %s, self._keymap == old(self._keymap))' % NEWKEY)],
+         raises=[Raise('ZConfig.SchemaError',
+                       when='(%s and val(key) in self._keymap) or %s in self._attrmap' % (NEWKEY, ATTR),
+                       then=[Clause('self._children == old(self._children) and self._attrmap == old(self._attrmap) and '
+                                    'self._keymap == old(self._keymap)', carries='C10', label='nothing-added')],
+                       carries='C10', label='key-name-or-attribute-name-already-used-in-this-container')])
+contract('info.SectionType.addkey', params={'keyinfo': 'Ref[info.BaseKeyInfo]'},
+         requires=[Clause("child_wf(keyinfo.name, keyinfo) and val(keyinfo.attribute) != ''",
+                          label='child-is-well-formed-and-has-an-attribute-name')],
+         modifies=['self._children', 'self._attrmap', 'self._keymap'],
+         ensures=[Clause('self._children == old(self._children) + [(keyinfo.name, keyinfo)]', carries='C10,C11',
+                         label='key-appended-under-its-name')],
+         raises=[Raise('ZConfig.SchemaError',
+                       when='val(keyinfo.name) in self._keymap or val(keyinfo.attribute) in self._attrmap',
+                       carries='C10', label='key-name-or-attribute-name-already-used-in-this-container')])
+contract('info.SectionType.addsection', params={'name': 'Opt[str]', 'sectinfo': 'Ref[info.SectionInfo]'},
+         requires=[Clause("child_wf(name, sectinfo) and val(sectinfo.attribute) != '' and name != '*' and name != '+'",
+                          label='slot-is-well-formed-anonymous-slots-are-filed-without-a-key')],
+         modifies=['self._children', 'self._attrmap', 'self._keymap'],
+         ensures=[Clause('self._children == old(self._children) + [(name, sectinfo)]', carries='C10,C11',
+                         label='slot-appended-in-document-order')],
+         raises=[Raise('ZConfig.SchemaError',
+                       when="(name is not None and name != '' and val(name) in self._keymap) or "
+                            "val(sectinfo.attribute) in self._attrmap",
+                       carries='C10', label='section-name-or-attribute-name-already-used-in-this-container')])
+
+# ---- the schema object: type table, derived types, components (C10, C11) ---------------------------------------------
+model('info.SchemaType', fields={'_components': 'Map[str, str]', 'url': 'Opt[str]'})
+contract('info.SchemaType.__init__',
+         params={'keytype': 'Fun[kt]', 'valuetype': 'Opt[Fun[dt]]', 'datatype': 'Opt[Fun[sdt]]', 'handler': 'Opt[str]',
+                 'url': 'Opt[str]', 'registry': 'Ref[Registry]'},
+         requires=[Clause('datatype is not None', label='schemas-have-a-datatype')],
+         ensures=[Clause('self.name is None and self.keytype == keytype and self.valuetype == valuetype and '
+                         'self.datatype == datatype and self.registry == registry and self.handler == handler and '
+                         'self.url == url', carries='C10', label='stores-the-declaration'),
+                  Clause('len(self._children) == 0 and len(self._attrmap) == 0 and len(self._keymap) == 0 and '
+                         'len(keys(self._types)) == 0 and fresh(self._types) and len(self._components) == 0',
+                         carries='C10,C13', label='own-empty-type-table-no-children-no-components')])
+contract('info.SchemaType.addtype', params={'typeinfo': 'Ref[TypeLike]'},
+         requires=[Clause('typeinfo.name is not None', label='types-have-names')],
+         modifies=['self._types.items'],
+         ensures=[Clause('val(typeinfo.name) not in old(self._types.items) and '
+                         'self._types.items == updated(old(self._types.items), val(typeinfo.name), typeinfo)',
+                         carries='C10', label='type-name-was-unused-type-registered')],
+         raises=[Raise('ZConfig.SchemaError', when='val(typeinfo.name) in self._types.items',
+                       then=[Clause('self._types.items == old(self._types.items)')], carries='C10',
+                       label='type-name-cannot-be-redefined')])
+contract('info.SchemaType.createSectionType',
+         params={'name': 'str', 'keytype': 'Fun[kt]', 'valuetype': 'Opt[Fun[dt]]', 'datatype': 'Opt[Fun[sdt]]'},
+         returns='Ref[info.SectionType]', fresh_result=True,
+         requires=[Clause('datatype is not None', label='section-types-have-a-datatype')],
+         modifies=['self._types.items'],
+         ensures=[Clause('fresh(result) and result.name == name and result.keytype == keytype and '
+                         'result.valuetype == valuetype and result.datatype == datatype and result.registry == self.registry '
+                         'and result._types == self._types', carries='C10', label='new-type-sharing-the-schema-type-table'),
+                  Clause('len(result._children) == 0 and len(result._attrmap) == 0 and len(result._keymap) == 0',
+                         label='no-children-yet'),
+                  Clause('name not in old(self._types.items) and '
+                         'self._types.items == updated(old(self._types.items), name, result)', carries='C10',
+                         label='registered-under-its-name')],
+         static_ensures=[Clause("isclass(result, 'info.SectionType')")],
+         raises=[Raise('ZConfig.SchemaError', when='name in self._types.items',
+                       then=[Clause('self._types.items == old(self._types.items)')], carries='C10',
+                       label='type-name-cannot-be-redefined')])
+contract('info.SchemaType.addComponent', params={'name': 'str'}, modifies=['self._components'],
+         ensures=[Clause('name not in old(self._components) and self._components == updated(old(self._components), name, name)',
+                         carries='C11', label='component-recorded-once')],
+         raises=[Raise('ZConfig.SchemaError', when='name in self._components', carries='C11', label='component-already-loaded')])
+contract('info.SchemaType.hasComponent', params={'name': 'str'}, returns='bool',
+         ensures=[Clause('result == (name in self._components)', carries='C11', label='import-once-guard')])
+
+RAWD_ENTRY = "(alt(old(self._default), 'kmap') if is_alt(old(self._rawdefaults), 'none') else alt(old(self._rawdefaults), 'kmap'))"
+assumed('info.BaseKeyInfo.computedefault', params={'keytype': 'Fun[kt]'},
+        requires=[Clause("self.name == '+'", label='wildcard-only')],
+        modifies=['self._rawdefaults', 'self._default'],
+        ensures=[Clause('self._rawdefaults == %s' % RAWD),
+                 Clause("is_alt(self._default, 'kmap')"),
+                 Clause("implies(isa(self, 'info.KeyInfo'), renorm_defaults(%s, keytype, 0, {}) == (0, alt(self._default, 'kmap')))" % RAWD_ENTRY),
+                 Clause("implies(not isa(self, 'info.KeyInfo'), renorm_multi_defaults(%s, keytype, 0, {}) == (0, alt(self._default, 'kmap')))" % RAWD_ENTRY)],
+        raises=[Raise('ZConfig.SchemaError'), Raise('ZConfig.DataConversionError')],
+        notes='interface of KeyInfo.computedefault / MultiKeyInfo.computedefault (both proved with exactly these clauses)')
+
+BCH = 'base._children'
+contract('info.SchemaType.deriveSectionType',
+         params={'base': 'Ref[info.SectionType]', 'name': 'str', 'keytype': 'Fun[kt]', 'valuetype': 'Opt[Fun[dt]]',
+                 'datatype': 'Opt[Fun[sdt]]'},
+         returns='Ref[info.SectionType]', fresh_result=True,
+         requires=[Clause('datatype is not None', label='section-types-have-a-datatype'),
+                   Clause('invariant_of(base)', label='RI-of-the-base-type')],
+         modifies=['self._types.items'],
+         ensures=[Clause('fresh(result) and result.name == name and result.keytype == keytype and '
+                         'result.valuetype == valuetype and result.datatype == datatype', carries='C11',
+                         label='own-key-type-datatype-and-value-type'),
+                  Clause('result._keymap == base._keymap and result._attrmap == base._attrmap', carries='C10,C11',
+                         label='inherited-key-names-and-attribute-names-are-taken'),
+                  Clause('len(result._children) == len(%s)' % BCH, carries='C11', label='base-children-first-nothing-else'),
+                  Clause('forall(lambda i: implies(0 <= i and i < len(%s), derived_child(result._children[i][0], '
+                         'result._children[i][1], %s[i][0], %s[i][1], keytype)))' % (BCH, BCH, BCH), carries='C11',
+                         label='each-child-inherited-in-order-wildcard-defaults-re-normalised-on-a-copy'),
+                  Clause('self._types.items == updated(old(self._types.items), name, result)', carries='C10',
+                         label='registered-under-its-name')],
+         raises=[Raise('ZConfig.SchemaError+', carries='C10,C11',
+                       label='base-is-the-schema-or-name-taken-or-defaults-collide'),
+                 Raise('ZConfig.DataConversionError', carries='C10', label='default-key-refused-by-the-new-key-type')],
+         loops=[Loop(invariant=[Clause('len(t._children) == len(%s) and fresh(t) and t.keytype == keytype' % BCH),
+                                Clause('t._keymap == base._keymap and t._attrmap == base._attrmap'),
+                                Clause('forall(lambda j: implies(0 <= j and j < _i0, derived_child(t._children[j][0], '
+                                       't._children[j][1], %s[j][0], %s[j][1], keytype)))' % (BCH, BCH),
+                                       label='children-so-far-derived'),
+                                Clause('forall(lambda j: implies(_i0 <= j and j < len(%s), t._children[j] == %s[j]))' % (BCH, BCH),
+                                       label='later-children-still-the-base-ones'),
+                                Clause('self._types.items == updated(old(self._types.items), name, t)')],
+                     locals={'key': 'Opt[str]', 'info': 'Ref[info.BaseInfo]', 'i': 'int'},
+                     modifies=['t._children', '+info.BaseKeyInfo.*', '+info.BaseInfo.*'])])
+
+contract('info.createDerivedSchema', params={'base': 'Ref[info.SchemaType]'}, returns='Ref[info.SchemaType]',
+         fresh_result=True,
+         requires=[Clause('base.datatype is not None', label='schemas-have-a-datatype')],
+         ensures=[Clause('fresh(result) and fresh(result._types) and result._types != base._types', carries='C12,C13',
+                         label='own-type-table'),
+                  Clause('result.keytype == base.keytype and result.valuetype == base.valuetype and '
+                         'result.datatype == base.datatype and result.handler == base.handler and result.url == base.url and '
+                         'result.registry == base.registry', carries='C12', label='same-settings'),
+                  Clause('result._children == base._children and result._attrmap == base._attrmap and '
+                         'result._keymap == base._keymap and result._types.items == base._types.items and '
+                         'result._components == base._components', carries='C12,C13',
+                         label='same-children-types-and-components-in-containers-of-its-own')])
